@@ -113,6 +113,16 @@ def _anchors():
     out.append(A("surface_ignore_faces", _SQ[:4], E=[[0, 2]], F=[[0, 1, 2], [0, 2, 3]], ignore=["faces"]))
     out.append(A("volume_ignore_cells", _TETV[:4], C=[[0, 1, 2, 3]], ignore=["cells"]))
     out.append(A("volume_ignore_faces", _TETV[:4], C=[[0, 1, 2, 3]], ignore=["faces"]))
+    # coordinate storage: numpy float32 / float64 / integer rows and scalars, Python ints, from_arrays, a mesh loaded from binary STL.
+    # 0.1, 1/3, 1e-3 ... are not float32 numbers: float32(0.1) = 0.10000000149011612 has to come back, not 0.1
+    frac = [[0.1, 0.2, 0.3], [1.1, 1.0 / 3.0, 1e-3], [0.7, 2.6, -0.9], [-0.1, 1.7, 123456.789]]
+    ints = [[0, 0, 0], [3, -1, 0], [2, 5, 7], [-4, 6, 1]]
+    for vs in VSTORES:
+        pts = ints if vs in VSTORE_IS_INT else frac
+        out.append(A("vstore_%s_two_triangles" % vs, pts, F=[[0, 1, 2], [0, 2, 3]], vstore=vs, coords="int" if vs in VSTORE_IS_INT else "zoo"))
+        if vs != "stl_binary":
+            out.append(A("vstore_%s_one_tet" % vs, pts, C=[[0, 1, 2, 3]], vstore=vs, coords="int" if vs in VSTORE_IS_INT else "zoo"))
+            out.append(A("vstore_%s_path" % vs, pts, E=[[0, 1], [2, 1]], vstore=vs, coords="int" if vs in VSTORE_IS_INT else "zoo"))
     return out
 
 
@@ -178,6 +188,22 @@ def cases(seed, tier):
         if rng.random() < 0.15:
             d["attrs"] = d["attrs"] + [{"on": "vertices", "type": "float", "arity": 3, "dense": rng.random() < 0.5, "dflt": False,
                                        "fill": 1.0, "name": "normals"}]
+        out.append(d)
+    # coordinate containers / dtypes (own generator stream, so that the cases above do not depend on it)
+    rng2 = random.Random(seed * 7927 + 404)
+    n2 = 240 if tier == "quick" else 10000
+    f32_modes = ["zoo", "negative", "digits17", "negzero", "float32", "zoo"]
+    for i in range(n2):
+        kind = KINDS[i % len(KINDS)]
+        vs = VSTORES[(i // len(KINDS) + i) % len(VSTORES)]
+        if vs == "stl_binary":
+            kind = ["surface:tri", "surface:quad", "surface:any"][i % 3]
+        coords = "int" if vs in VSTORE_IS_INT else f32_modes[i % len(f32_modes)] if vs in VSTORE_IS_F32 else zin.COORD_MODES[i % len(zin.COORD_MODES)]
+        d = {"gen": "mesh", "kind": kind, "seed": rng2.randrange(2 ** 31), "size": rng2.choice(sizes), "coords": coords, "vstore": vs,
+             "cfg": {"export_edges_in_obj": rng2.random() < 0.8, "complete_edges_from_faces": rng2.random() < 0.8},
+             "ignore": [], "vrows": "list", "irows": rng2.choice(["list", "tuple", "npint", "nprow"]),
+             "edges": rng2.choice(["none", "none", "some", "all"]), "unused": rng2.choice([0, 0, 1]),
+             "unused_front": rng2.random() < 0.5, "decl_faces": rng2.choice([0.0, 0.0, 0.3]), "attrs": _attr_plan(rng2, kind.split(":")[0], 0.25)}
         out.append(d)
     # last, so that a native abort costs no re-run of other cases (each lands at the end of its shard)
     out += _crash_cases()
@@ -266,6 +292,11 @@ def materialise(desc):
                 E = [(f[1], f[0])]
                 label += "+edges"
     V = zin.hostile_coords(V, rng, desc.get("coords", "zoo"))
+    vstore = desc.get("vstore")
+    if vstore in VSTORE_IS_F32:
+        V = [[_f32(c) for c in p] for p in V]  # the stored value is the float32; float(stored) is what has to come back
+    elif vstore in VSTORE_IS_INT:
+        V = [[int(round(c)) for c in p] for p in V]
     return V, E, F, C, base, label
 
 
@@ -285,10 +316,59 @@ def _raw(V, E, F, C, vrows, irows, int_coords):
     return data
 
 
-def _construct(V, E, F, C, base, vrows, irows, int_coords):
+VSTORES = ["f32row", "f32scalar", "f64scalar", "i64row", "i32row", "pyint", "from_arrays_f32", "from_arrays_f64", "from_arrays_i64",
+           "stl_binary"]
+VSTORE_IS_F32 = {"f32row", "f32scalar", "from_arrays_f32", "stl_binary"}
+VSTORE_IS_INT = {"i64row", "i32row", "pyint", "from_arrays_i64"}
+_NP_DTYPE = {"f32row": np.float32, "f32scalar": np.float32, "f64scalar": np.float64, "i64row": np.int64, "i32row": np.int32,
+             "from_arrays_f32": np.float32, "from_arrays_f64": np.float64, "from_arrays_i64": np.int64, "stl_binary": np.float32}
+
+
+def _stored_rows(V, vstore):
+    """Vertex rows in the requested numpy / Python storage (the values of V are exactly representable in it)."""
+    if vstore == "pyint":
+        return [[int(c) for c in p] for p in V]
+    dt = _NP_DTYPE[vstore]
+    if vstore in ("f32scalar", "f64scalar"):
+        return [[dt(c) for c in p] for p in V]  # lists of numpy scalars
+    A = np.array(V, dtype=dt).reshape(-1, 3)
+    return [A[i] for i in range(len(A))]  # rows (views) of one numpy array
+
+
+def _construct(V, E, F, C, base, vrows, irows, int_coords, vstore=None, tmp=None):
+    """Returns (mesh, number of declared edges).  vstore selects the container / dtype the coordinates are stored in:
+    numpy float32 / float64 / integer rows or scalars, Python ints, mouette.mesh.from_arrays on a typed array, or a mesh
+    obtained by loading a binary STL (mouette keeps those coordinates as float32)."""
     import mouette as M
     cls = {"pointcloud": M.mesh.PointCloud, "polyline": M.mesh.PolyLine, "surface": M.mesh.SurfaceMesh, "volume": M.mesh.VolumeMesh}[base]
-    return cls(_raw(V, E, F, C, vrows, irows, int_coords))
+    if not vstore:
+        return cls(_raw(V, E, F, C, vrows, irows, int_coords)), len(E)
+    regular = all(len({len(x) for x in X}) <= 1 for X in (F, C))
+    if vstore == "stl_binary" and base == "surface" and tmp is not None and all(len(f) in (3, 4) for f in F):
+        path = os.path.join(tmp, "source.stl")
+        codecs.stl.write(path, {"T": _soup(V, F, cast=False)}, dialect(order=0))
+        return M.mesh.load(path), 0
+    if vstore.startswith("from_arrays") and regular:
+        A = np.array(V, dtype=_NP_DTYPE[vstore]).reshape(-1, 3)
+        kw = {}
+        if E:
+            kw["E"] = np.array(E, dtype=np.int64)
+        if F:
+            kw["F"] = np.array(F, dtype=np.int64)
+        if C:
+            kw["C"] = np.array(C, dtype=np.int64)
+        return M.mesh.from_arrays(A, **kw), len(E)
+    data = M.mesh.RawMeshData()
+    data.vertices += _stored_rows(V, vstore if vstore in ("f32scalar", "f64scalar", "pyint", "i64row", "i32row") else
+                                  {"stl_binary": "f32row", "from_arrays_f32": "f32row", "from_arrays_f64": "f64scalar",
+                                   "from_arrays_i64": "i64row"}.get(vstore, vstore))
+    if E:
+        data.edges += build.rows(E, irows)
+    if F:
+        data.faces += build.rows(F, irows)
+    if C:
+        data.cells += build.rows(C, irows)
+    return cls(data), len(E)
 
 
 def _plain(x):
@@ -728,7 +808,8 @@ def direction_save(ctx, desc, inp, fmt, tmp, cfg):
     import mouette as M
     V, E, F, C, base, label = inp
     int_coords = desc.get("coords") == "int"
-    ok, mesh = ctx.call("construct", _construct, V, E, F, C, base, desc["vrows"], desc["irows"], int_coords)
+    ok, (mesh, n_declared) = ctx.call("construct", _construct, V, E, F, C, base, desc["vrows"], desc["irows"], int_coords,
+                                      vstore=desc.get("vstore"), tmp=tmp)
     rng = random.Random(desc["seed"] ^ 0xA77)
     made = _make_attrs(mesh, desc.get("attrs", []), rng) if fmt in ("geogram_ascii", "obj", "xyz") else []
     snap = _snap(mesh)
@@ -736,7 +817,7 @@ def direction_save(ctx, desc, inp, fmt, tmp, cfg):
     if fmt == "stl" and not zin.fits_float32(snap["V"]):
         ctx.note("stl_skipped_outside_float32_range")
         return
-    exp = project(snap, fmt, cfg, ignore, len(E), bool(snap["F"]))
+    exp = project(snap, fmt, cfg, ignore, n_declared, bool(snap["F"]))
     path = os.path.join(tmp, "m_%s.%s" % (fmt, fmt))
     polygons = fmt == "stl" and any(len(f) >= 5 for f in snap["F"]) and "faces" not in ignore
     ok, res = _call(ctx, "roundtrip", fmt + "/save", M.mesh.save, mesh, path, set(ignore) if ignore else None,
@@ -963,6 +1044,7 @@ def _run(desc, ctx, tmp):
     ctx.cls("complete_edges_from_faces:%s" % cfg["complete_edges_from_faces"])
     ctx.cls("ignore:" + (",".join(desc.get("ignore", [])) or "none"))
     ctx.cls("rows:%s/%s" % (desc["vrows"], desc["irows"]))
+    ctx.cls("vstore:%s" % (desc.get("vstore") or "python_float_rows"))
     if F:
         ctx.cls("face_arities:" + ",".join(sorted({_fcls(len(f)) for f in F})))
     if C:
@@ -974,7 +1056,7 @@ def _run(desc, ctx, tmp):
     kinds = (1 if E else 0) + (1 if F else 0) + (1 if C else 0)
     if kinds >= 1 and (kinds >= 2 or desc.get("attrs")):
         if True:
-            ctx.nontrivial(stable_hash([[[float(c).hex() for c in p] for p in V], E, F, C, desc.get("attrs"), cfg, desc.get("ignore")]))
+            ctx.nontrivial(stable_hash([[[float(c).hex() for c in p] for p in V], E, F, C, desc.get("attrs"), cfg, desc.get("ignore"), desc.get("vstore")]))
     with build.config(export_edges_in_obj=cfg["export_edges_in_obj"], complete_edges_from_faces=cfg["complete_edges_from_faces"]):
         for fmt in formats:
             direction_save(ctx, desc, inp, fmt, tmp, cfg)
